@@ -113,6 +113,23 @@ def mesh_faults(rng, L, limit):
             if len(l) > 6 and l[0].isdigit() and int(l[0]) == len(l) - 1:
                 M = copy.deepcopy(L); M[i] = [str(int(l[0]) - 1)] + l[1:-1]
                 out.append(("record_one_short_count_adjusted", render_lines(M), None))
+    # a whole triangle removed from / listed twice in a cell record, with the record size and the CELLS total adjusted: a file
+    # that is well-formed for the reader and describes an open or doubly covered surface
+    cstart = next((i for i, l in enumerate(L) if l and l[0] == "CELLS"), None)
+    if cstart is not None:
+        for i in range(cstart + 1, len(L)):
+            l = L[i]
+            if not l or not l[0].isdigit() or len(l) < 10:
+                break
+            nf = int(l[1])
+            for kind in ("face_removed_counts_adjusted", "face_duplicated_counts_adjusted"):
+                M = copy.deepcopy(L)
+                k = rng2.randrange(nf); tri = l[2 + 4 * k:6 + 4 * k]
+                body = l[2:2 + 4 * k] + l[6 + 4 * k:] if kind.startswith("face_removed") else l[2:] + tri
+                nf2 = nf - 1 if kind.startswith("face_removed") else nf + 1
+                M[i] = [str(len(body) + 1), str(nf2)] + body
+                M[cstart] = ["CELLS", L[cstart][1], str(int(L[cstart][2]) + (len(M[i]) - len(l)))]
+                out.append((kind, render_lines(M), None))
     out.append(("empty_cell_record", render_lines([(["0", " ", " "] if (l and i > 0 and L[i - 1] and L[i - 1][0] == "CELLS") else l) for i, l in enumerate(L)]), None))
     text = render_lines(L)
     # truncation at every token boundary and every 64th byte
@@ -301,7 +318,10 @@ def run(ck):
     st_cases = [("ST", "valid", None, None)]
     Lb = mesh_file_lines(cellsB, [1, 0])
     mf = mesh_faults(rng, Lb, None); rng.shuffle(mf)
-    for kind, text, where in mf[:(60 if quick else 700)]:
+    # always through the complete start-up: the structural face faults and the integer boundary values in the cell_type_id array
+    # (that array is interpreted by simulation_initializer, not by the reader)
+    always = [x for x in mf if x[0].startswith("face_")] + [x for x in mf if x[0] == "wrap_value" and x[2] and x[2][0] > 0 and Lb[x[2][0] - 1][:1] == ["cell_type_id"]]
+    for kind, text, where in always + mf[:(60 if quick else 700)]:
         st_cases.append(("STM", kind, text.encode(), where))
     xf = xml_faults(rng, xml, None); rng.shuffle(xf)
     for kind, t, where in xf[:(40 if quick else 400)]:
@@ -339,6 +359,8 @@ def run(ck):
             info = cinfo.get(i, "")
             what = "terminate" if "terminate" in info else ("signal" if cls == "CRASH" else cls.lower())
             fails.append((i, "startup_completes_or_throws_std_exception", "%s on %s fault %s (%s: %s)" % (cls, c[0], c[1], what, info[-300:].replace("\n", " "))))
+        elif cls == "OK" and c[0] in ("ST", "STM") and o and "INVALIDCELL" in o:
+            fails.append((i, "startup_that_completes_hands_on_usable_cells", "the start-up completed on a %s fault (%s) and handed on a cell that is not a closed oriented surface (the first solver iteration then aborts): %s" % (c[0], c[1], o[:120])))
         elif cls == "OK" and c[0] == "RD" and o and "DANGLING" in o:
             fails.append((i, "accepted_mesh_is_index_safe", "mesh_reader accepted a file (%s) whose faces reference points that do not exist: %s" % (c[1], o[:120])))
     for i, info in acrashes:
